@@ -20,6 +20,10 @@ ASSUMPTIONS = [
     "the primary identifier of DynamicallyDefineDataIdentifier is sub-function + dynamicallyDefinedDataIdentifier (compared when both sides carry one); of ReadMemoryByAddress the number of returned bytes; RequestDownload/Upload, ClearDiagnosticInformation and RequestTransferExit echo nothing",
     "multi-identifier ReadDataByIdentifier answers are attributed to the first identifier (records cannot be separated)",
     "exception *classes* compared: RequestResponseMismatch / MalformedResponse / the UnexpectedNegativeResponse subclass; messages are not",
+    "client composition (Model/ClientMatch.lean): the request loop is the C04 model (Model/ClientIO.lean, its own tie is C04's); C03 defines its read events from bytes (classifyRead via parsePdu) and ties the composition by running reply streams through the real UDSClient.request; that every frame read reaches parse_pdu(raw_resp, request) is a regenerated AST fact (assignments to resp / raw_resp, shape of the ResponsePending loop)",
+    "in the stream worlds writes and reconnects succeed, the transport is a scripted in-memory object (request_unsafe = write + read), time is virtual; frames the client never reads are not enumerated",
+    "suggests_* / raise_for_error / raise_for_mismatch are modelled over the regenerated code lists and the regenerated NRC -> exception map; their bodies are anchored by AST text (a refactoring of the body breaks the obligation without a failing input); a NegativeResponse object with a code outside UDSErrorCodes cannot be constructed, such codes reach the helpers only as bare integers",
+    "trigger_request bookkeeping is modelled as the pair (decoded reply, request) returned by parsePduBound; identity of the Python object (`is`) is checked by the harness, not expressible in the model",
 ]
 
 _C01 = importlib.import_module("props.C01")
@@ -832,6 +836,7 @@ def run_helpers(ctx, impl, pool):
             x.trigger_request = S.TesterPresentRequest()
             cases.append(("h p 0", x, True, ("pos:" + type(x).__name__, 0)))
     mo = ctx.lean([c[0] for c in cases])
+    hfound = {}
     for (line, arg, rz, (what, code)), m in zip(cases, mo):
         ctx.ev()
         ctx.kind("helpers:" + what.split(":")[0])
@@ -841,11 +846,15 @@ def run_helpers(ctx, impl, pool):
         if iv != m:
             fl_differs = (not line.startswith("hu")) and iv.split(" ")[0] != m.split(" ")[0]
             which = "suggests" if fl_differs else "raise_for_error"
-            ctx.disagree(f"helpers:{which}:{what.split(':')[0]}:code={code:02x}:impl={iv.replace(' ', '/')}",
-                         f"{which} on {what} (code {code:#04x}): the code gives {iv}, the model over the regenerated tables {m} "
-                         "(flags: suggests_service / sub_function / identifier _not_supported; then raise_for_error)",
-                         {"op": "helper", "line": line, "what": what, "code": code}, impl=iv, model=m, spec_violated=True,
-                         site="helpers.suggests_* / raise_for_error")
+            shape = re.sub(r"raises:\w+:\d+", "raises", iv).replace(" ", "/")
+            # one report per (helper, argument kind, shape of the wrong answer): the smallest code stands for the family
+            hfound.setdefault((which, what.split(":")[0], shape, m.split(" ")[0] if fl_differs else ""), (line, what, code, iv, m))
+    for (which, wk, shape, mfl), (line, what, code, iv, m) in sorted(hfound.items()):
+        ctx.disagree(f"helpers:{which}:{wk}:impl={shape}" + (f":want={mfl}" if mfl else ""),
+                     f"{which} on {what} (code {code:#04x}): the code gives {iv}, the model over the regenerated tables {m} "
+                     "(flags: suggests_service / sub_function / identifier _not_supported; then raise_for_error)",
+                     {"op": "helper", "line": line, "what": what, "code": code}, impl=iv, model=m, spec_violated=True,
+                     site="helpers.suggests_* / raise_for_error")
     ctx.traces_validated += len(cases)
     ctx.exhaustive_parts.append("suggests_service / sub_function / identifier _not_supported on all 256 bare codes, every UDSErrorCodes member, a bound NegativeResponse "
                                 "of every listed code and one positive response of every registry class; raise_for_error on the bound / unbound negatives and the positives")
@@ -953,9 +962,22 @@ MANIFEST = {
                    "correspondence run of the real helpers.parse_pdu (outcome class, response class, raise_for_error / as_exception on "
                    "every accepted negative) over requests of every kind from the C01 generators x structured reply sets (exhaustive per "
                    "kind over response codes, named service ids, first / second reply byte, truncations, bit flips), plus the matches() "
-                   "predicates called directly, RawPositiveResponse.matches and the convenience IOCBI responses."),
+                   "predicates called directly, RawPositiveResponse.matches and the convenience IOCBI responses. "
+                   "Composition with the C04 request loop (Model/ClientMatch.lean): every read of UDSClient.request is classified from its bytes by "
+                   "parsePdu (own 7F sid 78 = pending, 7F sid 21 = busy, foreign = mismatch, undecodable = malformed); proved for every configuration, "
+                   "request and infinite world of write / read / reconnect results: whatever request() returns is the decoded Genuine frame of its last "
+                   "read bound to the request (stale_never_returned), every Foreign frame read - also inside the ResponsePending loop, also 7F xx 78 / "
+                   "7F xx 21 naming another service - ends the request with RequestResponseMismatch at that read (foreign_frame_ends_request, "
+                   "pending_loop_refuses_foreign, only_own_pending_prolongs), undecodable frames with MalformedResponse, a genuine final frame read is "
+                   "returned (genuine_final_returned). The suggests_* helpers are exactly the regenerated code lists, nested, subsets of UDSErrorCodes "
+                   "(suggests_partition, suggests_exact, suggests_monotone); raise_for_error returns iff the reply is positive and raises the class the "
+                   "regenerated map registers for the received code (raise_for_error_exact). Tied by exhaustive reply streams (length <= 4 quick / 5 "
+                   "thorough over a 12..16-symbol per-request alphabet, 13 request kinds, max_retry 0..2) through the real UDSClient.request on a scripted "
+                   "transport, and the helpers on all 256 codes x argument kinds."),
     "level_note": ("Trusted: Lean kernel (axioms propext, Quot.sound, Classical.choice), the table translator, the harness, the C01 / C02 "
-                   "codec oracles (own checks). Empty reply / empty request are outside the contract. Exception messages are not compared."),
-    "technique": "Lean 4 proof (case analysis response kind x request kind over the codec oracles, big-endian lemmas, decide on regenerated tables) + differential correspondence against the real matcher",
+                   "codec oracles (own checks), the C04 loop model (own check). Empty reply / empty request are outside the contract. Exception messages "
+                   "are not compared. Regenerated from the AST: suggests_* code lists, helper bodies, every assignment to resp / raw_resp in request_unsafe, "
+                   "the statements of the ResponsePending loop, the trigger_request binding of parse_pdu."),
+    "technique": "Lean 4 proof (case analysis response kind x request kind over the codec oracles, big-endian lemmas, decide on regenerated tables, composition with the C04 loop through its specification ImpliedX) + differential correspondence against the real matcher, the real client on reply streams and the real helpers",
     "design_ref": "DESIGN.md section 7, C03",
 }
